@@ -74,13 +74,13 @@ theorem dataStep_plain_keep (e : List (List UInt8)) (l : List UInt8) (fi : UInt8
 theorem dataStep_blank_lead (e : List (List UInt8)) (x : List UInt8) (fi : UInt8) (cur ln : Nat)
     (la : Option UInt8) (b : UInt8) (hb : isBlank b = true) (hx : x.length ≤ 1) :
     dataStep f (Dst e x false fi 0 cur ln 0 la) b = .more (Dst e [b] false fi 0 cur ln 0 (some b)) := by
-  have hb' : b = 32 ∨ b = 9 := by simpa [isBlank] using hb
-  have h0 : b ≠ 0 := by rcases hb' with h | h <;> subst h <;> decide
-  have hesc : f.isEscape b = false := by rw [hf.isEscape]; rcases hb' with h | h <;> subst h <;> decide
-  have hcom : f.isComment b = false := by rw [hf.isComment]; rcases hb' with h | h <;> subst h <;> decide
-  have h10' : (b == 10) = false := by rcases hb' with h | h <;> subst h <;> decide
-  have hoe : (b == f.oend) = false := by rw [hf.oend]; rcases hb' with h | h <;> subst h <;> decide
-  have hsp : isspace b = true := by rcases hb' with h | h <;> subst h <;> decide
+  have hb' : b = 32 ∨ b = 9 ∨ b = 11 ∨ b = 12 ∨ b = 13 := by simpa [isBlank, or_assoc] using hb
+  have h0 : b ≠ 0 := by rcases hb' with h | h | h | h | h <;> subst h <;> decide
+  have hesc : f.isEscape b = false := by rw [hf.isEscape]; rcases hb' with h | h | h | h | h <;> subst h <;> decide
+  have hcom : f.isComment b = false := by rw [hf.isComment]; rcases hb' with h | h | h | h | h <;> subst h <;> decide
+  have h10' : (b == 10) = false := by rcases hb' with h | h | h | h | h <;> subst h <;> decide
+  have hoe : (b == f.oend) = false := by rw [hf.oend]; rcases hb' with h | h | h | h | h <;> subst h <;> decide
+  have hsp : isspace b = true := by rcases hb' with h | h | h | h | h <;> subst h <;> decide
   have hadd : (Pth e x false fi).addchar b = Pth e [b] false fi := by
     match x, hx with
     | [], _ => simp
@@ -213,8 +213,8 @@ theorem run_lead_blanks (e : List (List UInt8)) (fi : UInt8) (cur ln : Nat) :
       by_cases hr : r = []
       · subst hr
         simp only [runSteps, Option.some.injEq] at hrun
-        have hb' : b = 32 ∨ b = 9 := by simpa [isBlank] using hb.1
-        refine ⟨b, ?_, by rcases hb' with h | h <;> subst h <;> decide⟩
+        have hb' : b = 32 ∨ b = 9 ∨ b = 11 ∨ b = 12 ∨ b = 13 := by simpa [isBlank, or_assoc] using hb.1
+        refine ⟨b, ?_, by rcases hb' with h | h | h | h | h <;> subst h <;> decide⟩
         have := congrArg DataSt.last hrun
         simpa using this.symm
       · exact hla hr
@@ -252,8 +252,8 @@ theorem validAfter_blanks (len v : Nat) (bs : List UInt8) (h : bs.all isBlank = 
   | nil => rfl
   | cons b r ih =>
     simp only [List.all_cons, Bool.and_eq_true] at h
-    have hb' : b = 32 ∨ b = 9 := by simpa [isBlank] using h.1
-    have hsp : isspace b = true := by rcases hb' with h | h <;> subst h <;> decide
+    have hb' : b = 32 ∨ b = 9 ∨ b = 11 ∨ b = 12 ∨ b = 13 := by simpa [isBlank, or_assoc] using h.1
+    have hsp : isspace b = true := by rcases hb' with h | h | h | h | h <;> subst h <;> decide
     simp only [validAfter, hsp, ↓reduceIte]
     exact ih _ h.2
 
@@ -394,9 +394,9 @@ theorem afterVal_blank (e : List (List UInt8)) (fi : UInt8) (cur : Nat) (val : L
     ∃ d', dataStep f d b = .more d' ∧ AfterVal e fi cur val d' ∧ d'.last = some b := by
   obtain ⟨l, k, ln, la, hd, hk, ht⟩ := h
   subst hd
-  have hb' : b = 32 ∨ b = 9 := by simpa [isBlank] using hb
-  have hsp : isspace b = true := by rcases hb' with h | h <;> subst h <;> decide
-  have hpl : plainChar b = true := by rcases hb' with h | h <;> subst h <;> decide
+  have hb' : b = 32 ∨ b = 9 ∨ b = 11 ∨ b = 12 ∨ b = 13 := by simpa [isBlank, or_assoc] using hb
+  have hsp : isspace b = true := by rcases hb' with h | h | h | h | h <;> subst h <;> decide
+  have hpl : plainChar b = true := by rcases hb' with h | h | h | h | h <;> subst h <;> decide
   rcases hk with ⟨hk, hv⟩ | ⟨hk, hv, hl⟩
   · subst hk
     refine ⟨_, dataStep_plain_keep hf e l fi val.length cur ln la b hpl, ?_, rfl⟩
@@ -424,8 +424,8 @@ theorem afterVal_blanks (e : List (List UInt8)) (fi : UInt8) (cur : Nat) (val : 
     · subst hr
       simp only [runSteps, Option.some.injEq] at hrun
       subst hrun
-      have hb' : b = 32 ∨ b = 9 := by simpa [isBlank] using hb.1
-      exact ⟨b, hl, by rcases hb' with h | h <;> subst h <;> decide⟩
+      have hb' : b = 32 ∨ b = 9 ∨ b = 11 ∨ b = 12 ∨ b = 13 := by simpa [isBlank, or_assoc] using hb.1
+      exact ⟨b, hl, by rcases hb' with h | h | h | h | h <;> subst h <;> decide⟩
     · exact hl' hr
 
 /-- exit of the data loop behind a value -/
